@@ -202,7 +202,51 @@ func c06RunEtcd(in c06EIn) (obs c06EObs) {
 var c06ENames = []string{"alice", "bob", "carol", "dave", "erin"}
 var c06EPws = []string{"pw1", "pa:ss", "pässwörd", "x", "secret two", "pw2"}
 
+// c06GenEtcdMany: more than 64 (129, 257 ...) users; everybody logs in, then user k presents the
+// password of user k+64 / k+128 / k+1, also after an update that leaves the users as they are.
+func c06GenEtcdMany(r *vfRand, n int) c06EIn {
+	in := c06EIn{Prefix: "credentials/"}
+	us := c06ManyUsers(n)
+	for _, u := range us {
+		in.Initial = append(in.Initial, c06ECred{Key: u[0], Password: u[1]})
+	}
+	req := func(u, p string) { in.Ops = append(in.Ops, c06EOp{Op: "req", Creds: u + ":" + p}) }
+	order := make([]int, n)
+	for i := range order {
+		order[i] = i
+	}
+	if r.Chance(1, 2) { // not always in index order
+		for i := range order {
+			j := i + r.Intn(n-i)
+			order[i], order[j] = order[j], order[i]
+		}
+	}
+	for _, i := range order {
+		req(us[i][0], us[i][1])
+	}
+	for k := 0; k < 8; k++ {
+		a := order[k]
+		for _, d := range []int{64, 128, 256, 1} {
+			if k+d < n {
+				req(us[a][0], us[order[k+d]][1])
+			}
+		}
+		req(us[a][0], us[a][1])
+	}
+	in.Ops = append(in.Ops, c06EOp{Op: "update", Users: in.Initial})
+	req(us[order[0]][0], us[order[n-1]][1])
+	req(us[order[0]][0], us[order[0]][1])
+	return in
+}
+
 func c06GenEtcd(r *vfRand, adv bool) c06EIn {
+	if k := r.Intn(40); k == 0 || (adv && k < 8) {
+		sizes := []int{65, 66, 70, 129, 130}
+		if vfTier() == "thorough" {
+			sizes = append(sizes, 257, 300)
+		}
+		return c06GenEtcdMany(r, sizes[r.Intn(len(sizes))])
+	}
 	in := c06EIn{Prefix: r.PickStr("credentials/", "", "team-a/"), InitErr: r.Chance(1, 25)}
 	mk := func(name string) c06ECred {
 		c := c06ECred{Key: name, Password: r.PickStr(c06EPws...)}
